@@ -37,7 +37,7 @@ func init() {
 	register(&Prop{
 		ID: "C12",
 		Rule: "as C11 plus a family with many versions of each child sharing one second and parents with more than a dozen updates; every case annotated 20 times (100 in the thorough tier) on fresh deep copies and the serialised results compared; " +
-			"non-trivial = some parent has two updates with equal index and timestamp, or more than 12 updates; distinct = distinct op line",
+			"a family (15%) of histories with clock skew: two neighbouring versions of a child carry each other's times (model and order checks only, no timeline ground truth); non-trivial = some parent has two updates with equal index and timestamp, or more than 12 updates, or a skewed history with two or more updates; distinct = distinct op line",
 		Gen:       func(r *Rng, tier string, emit func(string)) { c11Gen(r, tier, emit, true) },
 		Exec:      func(op string) (string, *Violation) { return c11Exec(op, c12Repeats) },
 		Class:     c12Class,
@@ -77,6 +77,7 @@ type c11Parent struct {
 
 type c11Case struct {
 	dup    bool // a history holds the same version number twice: only "a function of its input" is claimed
+	skew   bool // time stamps do not follow the version numbers: no timeline ground truth, model and order checks only
 	kind   string
 	thr    int64
 	ii, im bool
@@ -96,10 +97,10 @@ func c11ParseOpt(s string) (int64, bool) {
 
 func c11Parse(op string) (*c11Case, bool) {
 	f := fields(op)
-	if len(f) < 7 || (f[0] != "ann" && f[0] != "annd") {
+	if len(f) < 7 || (f[0] != "ann" && f[0] != "annd" && f[0] != "anns") {
 		return nil, false
 	}
-	c := &c11Case{kind: f[1], hs: map[int64][]c11Child{}, dup: f[0] == "annd"}
+	c := &c11Case{kind: f[1], hs: map[int64][]c11Child{}, dup: f[0] == "annd", skew: f[0] == "anns"}
 	c.thr, _ = strconv.ParseInt(f[2], 10, 64)
 	c.ii, c.im = f[3] == "1", f[4] == "1"
 	c.fmod, _ = strconv.ParseInt(f[5], 10, 64)
@@ -336,6 +337,15 @@ func c12Class(op, out string) string {
 			seen[k] = true
 		}
 	}
+	if strings.HasPrefix(op, "anns ") {
+		// a history whose times run against its version numbers, with something to order
+		for _, part := range strings.Split(out, "|") {
+			if i := strings.Index(part, " U"); i >= 0 && len(strings.Fields(part[i+2:])) >= 2 {
+				return "clock-skew"
+			}
+		}
+		return "trivial-clock-skew"
+	}
 	switch {
 	case long && tie:
 		return "long-list-with-ties"
@@ -428,6 +438,12 @@ func c11Exec(op string, repeats int) (string, *Violation) {
 				return first.rendered, &Violation{Signature: "deleted-parent-annotated", Text: fmt.Sprintf("parent version %d is not visible but was annotated", i+1)}
 			}
 		}
+	}
+	if c.skew {
+		// time stamps that do not follow the version numbers: the ground truth of the time-travel oracle (a
+		// database timeline) does not exist for such a history; what C12 states - one result, update lists ordered
+		// by index, time, version - was checked above, and the model computes the same lists
+		return first.rendered, nil
 	}
 	if v := c.timeTravel(first); v != nil {
 		return first.rendered, v
@@ -810,12 +826,12 @@ func c11Gen(r *Rng, tier string, emit func(string), c12 bool) {
 		n = 1200
 	}
 	for i := 0; i < n; i++ {
-		emit(c11GenOne(r, c12 && r.Chance(60)))
+		emit(c11GenOne(r, c12 && r.Chance(60), c12 && r.Chance(15)))
 	}
 }
 
 // c11GenOne simulates a small database timeline and emits the parent versions and child histories.
-func c11GenOne(r *Rng, sameSecondFamily bool) string {
+func c11GenOne(r *Rng, sameSecondFamily, skew bool) string {
 	kind := "way"
 	if r.Chance(30) {
 		kind = "rel"
@@ -1029,7 +1045,7 @@ func c11GenOne(r *Rng, sameSecondFamily bool) string {
 		}
 		return 0
 	}
-	dupVersions := false
+	dupVersions, skewed := false, false
 	fmt.Fprintf(&b, "ann %s %d %d %d %d P", kind, thr, b01(ii), b01(im), fmod)
 	opt := func(v int64, has bool) string {
 		if !has {
@@ -1065,6 +1081,15 @@ func c11GenOne(r *Rng, sameSecondFamily bool) string {
 			l = append(append([]c11Child{}, l...), d)
 			dupVersions = true
 		}
+		// clock skew: two neighbouring versions carry each other's times, so the later version is the earlier one
+		// in time (C12: the update list is ordered by time within an index whatever the version order is)
+		if skew && len(l) >= 2 && r.Chance(50) {
+			l = append([]c11Child{}, l...)
+			k := r.Intn(len(l) - 1)
+			l[k].ts, l[k+1].ts = l[k+1].ts, l[k].ts
+			l[k].commit, l[k+1].commit = l[k+1].commit, l[k].commit
+			skewed = true
+		}
 		// histories arrive in any order
 		if r.Chance(40) {
 			p := r.Perm(len(l))
@@ -1082,6 +1107,9 @@ func c11GenOne(r *Rng, sameSecondFamily bool) string {
 	}
 	if dupVersions {
 		return "annd" + b.String()[3:]
+	}
+	if skewed {
+		return "anns" + b.String()[3:]
 	}
 	return b.String()
 }
